@@ -86,6 +86,24 @@ def is_full_range(prog, ctx, fld, idx):
     return canon(L) in alloc_lengths(prog, ctx, fld)
 
 
+def result_from_receiver(rep, rid, where, ps, root):
+    """the result filter of a set operation is built from the receiver's parameters - size, rate and hash strategy (a result that
+    hashes differently holds the right cells and answers key queries wrongly)"""
+    news = [e for p in ps for e in p.events if e.kind == "new" and e.cls == root]
+    for e in news[:1]:
+        got = dict(e.kwargs)
+        names = ["est_elements", "false_positive_rate", "filepath", "hex_string", "hash_function"]
+        for i, a_ in enumerate(e.args):
+            got[names[i]] = a_
+        want = {"est_elements": "_est_elements", "false_positive_rate": "_fpr", "hash_function": "_hash_func"}
+        for k, fld in want.items():
+            if strip_epochs(got.get(k, C(None))) != ("f", SELF, fld, 0):
+                rep.bad(rid, where, f"result {k} = {nshow(got.get(k, C(None)))}",
+                        f"the result is not built from the receiver's {k}", e.where())
+                return False
+    return bool(news)
+
+
 def operand_indices(prog, ctx, fld, exprs):
     """the index at which the receiver's cells and the operand's cells of `fld` are read in `exprs` (row forms): (idx_self, idx_second)
     when each side uses one index, the receiver's covers the full range and the operand's is the same walk (the same index, or the
@@ -286,6 +304,53 @@ def similarity_components(prog, rep, rid, ctx):
     rep.ok(rid, f"{where}: hash count, bit count and probe hash all compared")
 
 
+def _built_in_one(prog, rep, rid, ctx, f, ps, where, root, op) -> bool:
+    """the other design of a set operation: the result's whole array is built in one expression,
+    res._bloom = array(tc, [a (op) b for a, b in zip(<all cells of self>, <all cells of second>)]).
+    Returns True when that design was recognised (and judged: ok or violation reported)."""
+    from ..common import typed_fields
+    judged = False
+    for p in ps:
+        if p.exit[0] != "return" or strip_epochs(p.exit[1])[0] != "new":
+            continue
+        res = strip_epochs(p.exit[1])
+        sets = [e for e in p.events if e.kind == "setfield" and e.name == "_bloom" and strip_epochs(e.base) == res]
+        if not sets:
+            continue
+        v = strip_epochs(sets[-1].value)
+        if not (v[0] == "newb" and v[1] == "array" and len(v[3]) == 2 and v[3][1][0] == "comp" and len(v[3][1][3]) == 1 and not v[3][1][3][0][3]):
+            continue
+        judged = True
+        comp = v[3][1]
+        lid, dom = comp[3][0][1], strip_epochs(comp[3][0][2])
+        views = list(dom[2]) if dom[0] == "call" and dom[1] == ("g", "zip") and len(dom[2]) == 2 else []
+
+        def whole(view, rootsym):
+            """view is every cell of rootsym's array: the array itself (not a file mapping, which is longer than its cells) or its
+            prefix of bloom_length cells"""
+            base = ("f", rootsym, "_bloom", 0)
+            if view == base:
+                return "mmap" not in typed_fields(prog, ctx).get("_bloom", set()) or rootsym != SELF
+            if view[0] == "slice" and view[1] == base and view[2] in (C(None), C(0)) and view[4] in (C(None), C(1)):
+                return view[3] in (("f", rootsym, "_bloom_length", 0),)
+            return False
+        if len(views) != 2 or not ((whole(views[0], SELF) and whole(views[1], SECOND)) or (whole(views[1], SELF) and whole(views[0], SECOND))):
+            rep.bad(rid, where, f"result built over {nshow(dom)}", f"the result array is built over {nshow(dom)}, not over exactly the allocated cells of both operands "
+                    "(a file mapping is longer than its cells: it ends with the footer)", sets[-1].where())
+            return True
+        a = ("sub", ("f", SELF, "_bloom", 0), ("pos", lid), 0)
+        b = ("sub", ("f", SECOND, "_bloom", 0), ("pos", lid), 0)
+        wants = [canon(("bin", op, a, b))] if op != "+" else [canon(("bin", "+", a, b)), canon(("call", ("g", "min"), (norm(("bin", "+", a, b)), C(2**32 - 1)), ()))]
+        got = canon(posform(strip_epochs(comp[2])))
+        if got not in wants:
+            rep.bad(rid, where, f"element {nshow(comp[2])}", f"result cell is {nshow(comp[2])}; expected self cell {op} second cell at the same position", sets[-1].where())
+            return True
+    if judged:
+        if result_from_receiver(rep, rid, where, ps, root):
+            rep.ok(rid, f"{where}: result array built in one expression, self cell {op} second cell over all cells, result from receiver's parameters")
+    return judged
+
+
 def combine_rule(prog, rep, rid, ctx, fname, op):
     """store into the fresh result: res.cells[i] = self.cells[i] (op) second.cells[i] over the full range"""
     f = prog.method(ctx, fname)
@@ -297,6 +362,8 @@ def combine_rule(prog, rep, rid, ctx, fname, op):
         for e in p.events:
             if e.kind == "setelem" and outer_field(e.cont) == "_bloom":
                 stores.append((p, e))
+    if not stores and _built_in_one(prog, rep, rid, ctx, f, ps, where, root, op):
+        return
     if not stores:
         rep.bad(rid, where, "no cell store", f"{fname} stores nothing into the result's cells", f.where())
         return
@@ -340,19 +407,8 @@ def combine_rule(prog, rep, rid, ctx, fname, op):
             rep.bad(rid, where, f"store {nshow(e.value)}",
                     f"result cell is {nshow(e.value)}; expected self cell {op} second cell at the same index", e.where())
     if good:
-        # result built from the receiver's parameters
-        news = [e for p in ps for e in p.events if e.kind == "new" and e.cls == root]
-        for e in news[:1]:
-            got = dict(e.kwargs)
-            names = ["est_elements", "false_positive_rate", "filepath", "hex_string", "hash_function"]
-            for i, a_ in enumerate(e.args):
-                got[names[i]] = a_
-            want = {"est_elements": "_est_elements", "false_positive_rate": "_fpr", "hash_function": "_hash_func"}
-            for k, fld in want.items():
-                if strip_epochs(got.get(k, C(None))) != ("f", SELF, fld, 0):
-                    rep.bad(rid, where, f"result {k} = {nshow(got.get(k, C(None)))}",
-                            f"the result is not built from the receiver's {k}", e.where())
-                    return
+        if not result_from_receiver(rep, rid, where, ps, root):
+            return
         rep.ok(rid, f"{where}: res[i] = self[i] {op} second[i] over range(bloom_length), result from receiver's parameters")
 
 
